@@ -199,6 +199,13 @@ CHECKS["C20"] = {
     "note": "A variable whose root is itself a bracketed path ([a.b].c) is located at its opening bracket.",
 }
 
+CHECKS["C19"] = {
+    "technique": "generated-input search with a dynamic-trace oracle (the render is traced from the harness and every traced read, filter and tag must be in the static report)",
+    "text": "Templates that call the same generated partials 2-4 times (include / render, plain, with keyword arguments, with/for ... as name) from under different scopes (for, tablerow, with, capture, macro, for-else, case, after an assign), fully generated templates with two generated partials, and one- or two-node templates; rendered in lax mode (25% asynchronously) with every pool name in the render arguments while Node.render, Path.evaluate and RenderContext.filter are wrapped by the harness. Every path evaluated must be in analysis.variables (root and static segments), every filter looked up in analysis.filters, every tag node rendered in analysis.tags; a root that resolved from the top-level render arguments, that no active enclosing block binds and that no template assigns anywhere must be in analysis.globals.",
+    "design_ref": "DESIGN.md §4 C19",
+    "note": "No repository hook is needed: the trace is taken by wrapping library methods in the harness process. Dynamic partial names and translation tags/filters are outside the generated domain (stated in the evidence). The globals clause is applied conservatively: a name assigned anywhere in any template is exempt.",
+}
+
 NOT_APPLICABLE = [
     {"property_id": p, "reason": "check not built yet in this round (work in progress; see DESIGN.md §4 for the planned oracle)"}
     for p in ALL
